@@ -727,6 +727,9 @@ pub fn run(args: &Args) -> i32 {
 }
 
 pub fn replay(case: &Value) -> i32 {
+    if case["layer"].as_str() == Some("e2e") {
+        return crate::e2e::replay(case, false);
+    }
     match case["layer"].as_str() {
         Some("writer") => {
             let mapper: Option<Vec<usize>> = serde_json::from_value(case["mapper"].clone()).unwrap_or(None);
